@@ -3,6 +3,7 @@ C03 — property theorems (only final statements live here; helper lemmas are in
 `Pastel/Lemmas/`).  See DESIGN.md §5 for what is and is not proved.
 -/
 import Pastel.Model.Color
+import Pastel.Lemmas.Hexcone
 
 namespace Pastel.C03
 open Pastel
@@ -30,5 +31,59 @@ theorem toU32_unpack (c : Color α) :
   have hg := (toRgba8 c).g.toNat_lt
   have hb := (toRgba8 c).b.toNat_lt
   omega
+
+/-- `from_u32` reads `0xRRGGBBAA`: channels `R, G, B` and alpha `AA / 255`. -/
+theorem fromU32_layout (R G B A : Nat) (hR : R < 256) (hG : G < 256) (hB : B < 256) (hA : A < 256) :
+    (fromU32 (R * 2^24 + G * 2^16 + B * 2^8 + A) : Color α) =
+      fromRgba8 (UInt8.ofNat R) (UInt8.ofNat G) (UInt8.ofNat B) (Sc.ofNat A / 255.0) := by
+  unfold fromU32
+  have e1 : (R * 2^24 + G * 2^16 + B * 2^8 + A) / 16777216 % 256 = R := by omega
+  have e2 : (R * 2^24 + G * 2^16 + B * 2^8 + A) / 65536 % 256 = G := by omega
+  have e3 : (R * 2^24 + G * 2^16 + B * 2^8 + A) / 256 % 256 = B := by omega
+  have e4 : (R * 2^24 + G * 2^16 + B * 2^8 + A) % 256 = A := by omega
+  simp only [e1, e2, e3, e4]
+
+/-- **HSL storage round trip in exact arithmetic, for all 2²⁴ colours and any alpha**: a colour
+built from 8-bit channels (it is stored as hexcone HSL) reports exactly those channels back. -/
+theorem hsl_roundtrip (r g b : UInt8) (a : ℝ) :
+    (toRgba8 (fromRgba8 r g b a : Color ℝ)).r = r ∧ (toRgba8 (fromRgba8 r g b a : Color ℝ)).g = g ∧
+    (toRgba8 (fromRgba8 r g b a : Color ℝ)).b = b :=
+  hsl_roundtrip_real r g b a
+
+/-- The float channels of an 8-bit colour are exactly `k/255` (exact arithmetic). -/
+theorem float_channels_exact (r g b : UInt8) (a : ℝ) :
+    (toRgbaFloat (fromRgba8 r g b a : Color ℝ)).x = (r.toNat : ℝ) / 255 ∧
+    (toRgbaFloat (fromRgba8 r g b a : Color ℝ)).y = (g.toNat : ℝ) / 255 ∧
+    (toRgbaFloat (fromRgba8 r g b a : Color ℝ)).z = (b.toNat : ℝ) / 255 := by
+  rw [fromRgba8_toRgbaFloat]; exact ⟨rfl, rfl, rfl⟩
+
+/-- Float-RGB round trip: quantising the float channels of an 8-bit colour gives the bytes back. -/
+theorem rgbFloat_roundtrip (r g b : UInt8) (a : ℝ) :
+    quantize (toRgbaFloat (fromRgba8 r g b a : Color ℝ)).x = r ∧
+    quantize (toRgbaFloat (fromRgba8 r g b a : Color ℝ)).y = g ∧
+    quantize (toRgbaFloat (fromRgba8 r g b a : Color ℝ)).z = b := by
+  rw [fromRgba8_toRgbaFloat]
+  have q : ∀ x : UInt8, quantize (chan x) = x := by
+    intro x
+    unfold quantize
+    have hx := chan_range x
+    have hc : clamp (0 : ℝ) 255 (255 * chan x) = 255 * chan x := by
+      simp only [clamp, real_fmin, real_fmax, real_lit]
+      push_cast
+      rw [min_eq_right (by nlinarith [hx.2]), max_eq_left (by nlinarith [hx.1])]
+    have := real_toU8_round_chan x
+    have e : (255.0 : ℝ) * chan x = 255 * chan x := by norm_num
+    rw [e] at this
+    simp only [real_lit] at hc ⊢
+    push_cast at hc ⊢
+    rw [hc]; exact this
+  exact ⟨q r, q g, q b⟩
+
+/-- Non-vacuity on floats: the same round trip, evaluated by the kernel on IEEE doubles for a
+few colours (a test, not the general claim). -/
+theorem hsl_roundtrip_float_witnesses :
+    (let c := toRgba8 (fromRgba8 200 100 50 0.5 : Color Float); (c.r, c.g, c.b)) = (200, 100, 50) ∧
+    (let c := toRgba8 (fromRgba8 1 255 254 1.0 : Color Float); (c.r, c.g, c.b)) = (1, 255, 254) := by
+  decide +kernel
 
 end Pastel.C03
